@@ -14,7 +14,13 @@ class Unsupported(Exception):
 def literals_in(nodes):
     chars = set(); strs = set()
     for n in nodes:
+        # the text of an assert (condition, file name, function name handed to __assert_fail) is not data the function works on
+        skip = set()
         for x in n.walk():
+            if x.k == 'call' and (x.calleeq or '').split('::')[-1] in ('__assert_fail', '__assert', '_assert', '__assert_perror_fail'):
+                skip |= {y.id for y in x.walk()}
+        for x in n.walk():
+            if x.id in skip: continue
             if x.k == 'char': chars.add(chr(x.v) if 0 <= x.v < 256 else 'x')
             if x.k == 'str':
                 strs.add(x.v)
@@ -25,7 +31,9 @@ def literals_in(nodes):
 
 
 def table(chars, maxlen=4, other='x'):
-    alpha = sorted(chars) + [other]
+    # keep the tables enumerable whatever literals the code mentions (a log message, a long extension list): separators and other punctuation
+    # first, at most nine characters besides the stand-in for 'any other character'
+    alpha = sorted(chars, key=lambda ch: (ch.isalnum(), ch))[:9] + [other]
     for L in range(0, maxlen + 1):
         for t in itertools.product(alpha, repeat=L):
             yield ''.join(t)
@@ -73,6 +81,7 @@ class StrEval:
         k = n.k
         if k == 'char': return chr(n.v) if n.v else ''
         if k == 'int': return chr(n.v) if 0 < n.v < 256 else ''
+        if k == 'ref' and n.decl in self.env and isinstance(self.env[n.decl], str) and len(self.env[n.decl]) <= 1: return self.env[n.decl]          # a char local bound on the way
         if k == 'ref' and 'const' in n.d: return chr(n.d['const']) if 0 < n.d['const'] < 256 else ''
         if k == 'cast': return self.c(n.n('sub'))
         if k == 'subscript':
@@ -102,6 +111,7 @@ class StrEval:
         k = n.k
         if k == 'int': return n.v
         if 'const' in n.d and k != 'call': return n.d['const']
+        if k == 'ref' and n.decl in self.env and isinstance(self.env[n.decl], int) and not isinstance(self.env[n.decl], bool): return self.env[n.decl]
         if k == 'cast': return self.i(n.n('sub'))
         if k == 'binop' and n.op in ('+', '-'):
             a, b = self.i(n.n('lhs')), self.i(n.n('rhs')); return a + b if n.op == '+' else a - b
